@@ -2,6 +2,7 @@ package main
 
 import (
 	"encoding/json"
+	"io"
 	"flag"
 	"fmt"
 	"os"
@@ -95,7 +96,14 @@ func checkCmd(args []string) {
 		*tier = "quick"
 	}
 	seed, _ := strconv.Atoi(os.Getenv("VERIF_SEED"))
-	code := runCheck(*prop, *tier, seed, *repo, nil, *updateBaseline, *verbose, os.Stdout)
+	code, _ := runCheck(*prop, *tier, seed, *repo, nil, *updateBaseline, *verbose, os.Stdout, true)
+	if *tier == "thorough" && code == 0 {
+		// thorough tier: must-fail / must-pass self-test of the machinery on in-memory mutants
+		if st := runSelftest(*prop, *repo, os.Stdout, ""); st != 0 {
+			fmt.Println("selftest failed: the machinery did not behave as expected on its mutant corpus (not a property violation)")
+			os.Exit(3)
+		}
+	}
 	os.Exit(code)
 }
 
@@ -149,12 +157,14 @@ func loadBaseline(id string) map[string]bool {
 }
 
 // runCheck runs one property check. overlay (may be nil) replaces files in memory (self-test mutants).
-func runCheck(id, tier string, seed int, repo string, overlay map[string][]byte, updateBaseline, verbose bool, w *os.File) int {
+func runCheck(id, tier string, seed int, repo string, overlay map[string][]byte, updateBaseline, verbose bool, w io.Writer, evidence bool) (int, *checkOutcome) {
+	noEvidence = !evidence
+	outcome := &checkOutcome{}
 	start := time.Now()
 	cfg, err := loadPropConfig(id)
 	if err != nil {
 		fmt.Fprintln(w, "config error:", err)
-		return 2
+		return 2, outcome
 	}
 	timeout := 10 * time.Second
 	if tier == "thorough" {
@@ -166,7 +176,8 @@ func runCheck(id, tier string, seed int, repo string, overlay map[string][]byte,
 		// the tree does not compile: nothing can be decided
 		fmt.Fprintln(w, "UNDECIDED load-error:", err)
 		writeEvidence(cfg, tier, seed, nil, nil, []string{"load error: " + err.Error()}, nil, time.Since(start).Seconds(), eng, 0, 0)
-		return 2
+		outcome.Undecided = append(outcome.Undecided, "load error: "+err.Error())
+		return 2, outcome
 	}
 	var specs []string
 	for _, s := range cfg.Specs {
@@ -174,10 +185,13 @@ func runCheck(id, tier string, seed int, repo string, overlay map[string][]byte,
 	}
 	if err := eng.LoadContracts(specs); err != nil {
 		fmt.Fprintln(w, "contract error:", err)
-		return 2
+		return 2, outcome
 	}
 	baseline := loadBaseline(id)
 	outDir := filepath.Join(verifDir, "out", id)
+	if noEvidence {
+		outDir = filepath.Join(verifDir, "out", "selftest", id)
+	}
 	os.RemoveAll(outDir)
 	os.MkdirAll(outDir, 0o755)
 
@@ -353,11 +367,14 @@ func runCheck(id, tier string, seed int, repo string, overlay map[string][]byte,
 	writeFuncEvidence(cfg, encs, fnames, eng, solverTotal)
 	fmt.Fprintf(w, "property %s: %d obligations (%d in baseline), %d discharged, %d violations, %d known findings, %d undecided, %.1fs\n",
 		id, len(run), len(baseline), discharged, len(violations), len(knownLines), len(undecided), wall)
+	outcome.Violations, outcome.Known, outcome.Undecided, outcome.Reports = violations, knownLines, undecided, reports
 	if len(violations) > 0 {
-		return 1
+		return 1, outcome
 	}
-	return 0
+	return 0, outcome
 }
+
+var noEvidence bool
 
 func round3(f float64) float64 { return float64(int(f*1000+0.5)) / 1000 }
 
@@ -455,7 +472,7 @@ func undecidedBlocking(u []string) []string {
 }
 
 func flushEvidence() {
-	if lastEvidence == nil {
+	if lastEvidence == nil || noEvidence {
 		return
 	}
 	os.MkdirAll(filepath.Join(verifDir, "evidence"), 0o755)
@@ -520,6 +537,9 @@ func writeFuncEvidence(cfg *PropConfig, encs map[string]*fnEnc, fnames []string,
 // writeReplay writes the replay file of a failed obligation and tries the family adapter.
 func writeReplay(id string, o *Obligation, r SolveResult, eng *Engine, cfg *PropConfig) (string, bool) {
 	dir := filepath.Join(verifDir, "out", "replay", id)
+	if noEvidence {
+		dir = filepath.Join(verifDir, "out", "selftest", "replay", id)
+	}
 	os.MkdirAll(dir, 0o755)
 	path := filepath.Join(dir, sanitizeFile(o.Name)+".json")
 	smt := filepath.Join(verifDir, "out", id, sanitizeFile(o.Name)+".smt2")
